@@ -52,19 +52,36 @@ def _color_bytes():
     return table
 
 
+def _alpha_value(text):
+    for v, _, _ in ALPHAS:
+        if str(v) == text:
+            return v
+    raise ValueError(text)
+
+
+def _thousandths(x):
+    return None if x is None else int(round(float(x) * 1000))
+
+
+def _gs_content(resources, key):
+    d = resources['ExtGState'][key]
+    return [_thousandths(d.get('ca')), _thousandths(d.get('CA'))]
+
+
 def _new_stream(mark, keys0):
     import pydyf
     from weasyprint.pdf.stream import Stream
     eg = pydyf.Dictionary()
-    for k in keys0:
-        eg[k] = pydyf.Dictionary()
+    for k in keys0:                       # what Stream.set_alpha would have stored / an opaque state for s<n>
+        eg[k] = pydyf.Dictionary({'ca': _alpha_value(k[1:])} if k[0] == 'a' else
+                                 {'CA': _alpha_value(k[1:])} if k[0] == 'A' else {})
     resources = pydyf.Dictionary({
         'ExtGState': eg, 'XObject': pydyf.Dictionary(), 'Pattern': pydyf.Dictionary(),
         'Shading': pydyf.Dictionary(), 'ColorSpace': pydyf.Dictionary()})
     return Stream({}, (0, 0, 100, 100), resources, {}, mark, compress=False), resources
 
 
-def _decode_item(item, ctable):
+def _decode_item(item, ctable, content):
     """one item of Stream.stream -> abstract token (JSON-able list)"""
     import pydyf
     if isinstance(item, pydyf.Dictionary):
@@ -76,7 +93,7 @@ def _decode_item(item, ctable):
     parts = item.split()
     opname = parts[-1]
     if opname == b'gs':
-        return ['gs', parts[0][1:].decode()]
+        return ['gs', parts[0][1:].decode()] + content
     if opname in (b'rg', b'RG'):
         return ['rg', opname == b'RG', ctable[b' '.join(parts[:-1])]]
     if opname in (b'cs', b'CS'):
@@ -107,10 +124,22 @@ def _cache_color(t):
     raise ValueError('unknown cached colour %r' % (t,))
 
 
-def apply_ops(stream, ops):
+def _note_contents(stream, contents):
+    """contents[i] = what the ExtGState dictionary held under the name when item i (`/name gs`) was appended"""
+    del contents[len(stream.stream):]
+    for item in stream.stream[len(contents):]:
+        if isinstance(item, bytes) and item.endswith(b' gs'):
+            contents.append(_gs_content(stream._resources, item.split()[0][1:].decode()))
+        else:
+            contents.append(None)
+
+
+def apply_ops(stream, ops, contents=None):
     import pydyf
     box = SimpleNamespace(element_tag='div', element=None)
     for o in ops:
+        if contents is not None:
+            _note_contents(stream, contents)
         k = o[0]
         if k == 'push':
             stream.push_state()
@@ -163,19 +192,21 @@ def apply_ops(stream, ops):
 def stream_direct(case):
     """case: dict(mark, keys0, ops) -> dict(state read back) or {'raised': type} when a call raises."""
     stream, resources = _new_stream(case['mark'], case['keys0'])
+    contents = []
     try:
-        apply_ops(stream, case['ops'])
+        apply_ops(stream, case['ops'], contents)
     except (IndexError, AssertionError) as exc:
         return {'raised': type(exc).__name__}
+    _note_contents(stream, contents)
     ctable = _color_bytes()
     f = lambda t: None if t is None else [FONTS.index(t[0]), SIZES.index(t[1])]
     return {
-        'toks': [_decode_item(i, ctable) for i in stream.stream],
+        'toks': [_decode_item(i, ctable, c) for i, c in zip(stream.stream, contents)],
         'ctms': [[int(v) for v in m.values] for m in stream._ctm_stack],
         'col': _cache_color(stream._current_color), 'cols': _cache_color(stream._current_color_stroke),
         'alpha': stream._current_alpha, 'alphas': stream._current_alpha_stroke,
         'font': f(stream._current_font), 'ofont': f(stream._old_font),
-        'keys': list(resources['ExtGState'].keys()), 'nmark': len(stream.marked),
+        'keys': [[k] + _gs_content(resources, k) for k in resources['ExtGState']], 'nmark': len(stream.marked),
         'bytes': b'\n'.join(i if isinstance(i, bytes) else (i.data if hasattr(i, 'data') else str(i).encode())
                             for i in stream.stream).decode('latin-1'),
     }
